@@ -223,3 +223,15 @@ def run(ctx: Context) -> None:  # noqa: F811
                    f"is_available() tests `{ast.unparse(bad[0]) if bad else '?'}` but the connection serves {sorted(served)}: whether the connection can become HTTP/2 (and so take "
                    "further requests while it connects) is decided on the wrong origin")
     rep.floor("C07.R11", "establishing connection classes with a scheme test in is_available()", n, 2)
+
+
+
+_core_run_r12 = run
+
+
+def run(ctx: Context) -> None:  # noqa: F811
+    _core_run_r12(ctx)
+    from .c12 import read_recheck
+
+    read_recheck(ctx, "C07.R12", "against a server that answers every request no schedule leaves a caller blocked forever: a caller whose complete response was queued by another "
+                                 "stream's read must not start a read of its own")
